@@ -66,3 +66,9 @@ claim("C18",
       "Decides that a day range enters a schedule only after validation of that same range (range checks plus whole minutes), that nobody else writes a schedule, that weekday X is (de)serialised from/to field X with start/end not swapped and identical JSON/YAML keys, that blocked-service rules are applied only on the not-paused edge of Schedule.Contains(time.Now()), that the range test is the half-open start <= x < end, that the validator accepts a non-zero range only after each of its five comparisons, and that Contains takes weekday and wall-clock offset (Clock, not elapsed time) from the instant converted to the schedule's zone. "
       "The value-level equality of Contains with wall-clock containment for all instants and zones, and round-trip equality of serialised schedules, are not decided.",
       "DESIGN.md §5 C18")
+
+claim("C08",
+      "who-may-call enumeration, CFG edge guards, SSA value identity and must-pass ordering for the anonymiser, constant slice bounds of the mask (static analysis)",
+      "Decides that the log and the statistics are each written from one place, only on the true edge of decisions that are true only after the client's ignore flag was consulted and with a negative ignore-list lookup for the queried host, with identifier lists that always contain the client address; that the loaded anonymiser runs on the address slice before both decisions and both records and that exactly that slice (and the string computed from it afterwards) is what gets recorded; that file entries are re-checked against ignore list and client flag and the API applies the current anonymiser; that the anonymiser is installed exactly when the setting is on; and that the mask zeroes the constant regions [2:4) of the To4 form and [6:16) of the 16-byte form. "
+      "Ignore-pattern semantics, name normalisation and entries recorded before a configuration change are not decided.",
+      "DESIGN.md §5 C08")
